@@ -270,11 +270,22 @@ func (u *Unit) verify() {
 	vo.ExpectFail = true
 	f.atPoint("entry", st, fn.Blocks[0], 0)
 
-	rst, rets := f.run(st)
+	u.topFrame = f
+	rst, _ := f.run(st)
 	if rst.dead {
 		u.abstractf("%s: no return reachable", u.name)
-		return
 	}
+	for _, at := range spec.Ats {
+		if !at.hit {
+			u.errorf("%s: anchor %q was never reached (no such program point)", spec.Name, at.Where)
+		}
+	}
+}
+
+// checkReturn emits the postcondition and frame obligations for one return site of the unit.
+func (u *Unit) checkReturn(f *Frame, rst *State, rets []Val) {
+	fn := u.fn
+	spec := u.spec
 	// postconditions at the merged return
 	extra := map[string]TV{}
 	res := fn.Signature.Results()
@@ -342,11 +353,55 @@ func (u *Unit) verify() {
 				allowed[c] = true
 			}
 		}
-		if rst.gen != 0 {
-			u.addObl(rst, "frame", "heap-havoced", False, nil)
-		} else {
+		allowedMs := itemsMatchers(spec.Modifies, spec.Pkg)
+		_ = allowed
+		// callee effects: every havoc event on the way must be covered by the unit's own modifies clause
+		seenEv := map[int]bool{}
+		var walk func(g int)
+		walk = func(g int) {
+			for g != 0 && !seenEv[g] {
+				seenEv[g] = true
+				e := u.events[g]
+				if e.merge {
+					for _, p := range e.preds {
+						walk(p)
+					}
+					return
+				}
+				if e.all {
+					u.addObl(rst, "frame", "heap-havoced", False, nil).Text = "a call without a modifies clause forgot the heap"
+					return
+				}
+				for _, pm := range e.pats {
+					covered := false
+					for _, am := range allowedMs {
+						if pm.exact != "" && am.match(pm.exact) {
+							covered = true
+						}
+						if pm.prefix != "" && am.prefix != "" && strings.HasPrefix(pm.prefix, am.prefix) {
+							covered = true
+						}
+					}
+					if covered || strings.HasPrefix(pm.exact, "MapLen.") {
+						continue
+					}
+					if srt, known := u.classSort[pm.exact]; known && pm.exact != "" {
+						cur := u.heapGet(rst, pm.exact, srt)
+						init := u.genConst(0, pm.exact, srt)
+						if cur.S != init.S {
+							u.addObl(rst, "frame", pm.exact, u.frameGoal(pm.exact, init, cur), nil)
+						}
+					} else if pm.prefix != "" {
+						u.addObl(rst, "frame", "callee-modifies:"+pm.prefix+"*", False, nil)
+					}
+				}
+				g = e.prev
+			}
+		}
+		walk(rst.gen)
+		{
 			for _, c := range sortedKeys(rst.heap) {
-				if allowed[c] || strings.HasPrefix(c, "MapLen.") {
+				if allowed[c] || matchAny(allowedMs, c) || strings.HasPrefix(c, "MapLen.") {
 					continue
 				}
 				init := u.genConst(0, c, u.classSort[c])
@@ -357,11 +412,6 @@ func (u *Unit) verify() {
 				goal := u.frameGoal(c, init, rst.heap[c])
 				u.addObl(rst, "frame", c, goal, nil)
 			}
-		}
-	}
-	for _, at := range spec.Ats {
-		if !at.hit {
-			u.errorf("%s: anchor %q was never reached (no such program point)", spec.Name, at.Where)
 		}
 	}
 }
@@ -665,4 +715,132 @@ func writesField(fn *ssa.Function, wd WritersDecl) string {
 		}
 	}
 	return ""
+}
+
+// RecursionObligations: every function of the given package that lies on a call-graph cycle (static calls, closures
+// included) must be a unit under contract with a decreases clause; otherwise the obligation fails.
+func (eng *Engine) RecursionObligations(pkg string, prop string, allow []string) []*Obligation {
+	sp := eng.Pkgs[pkg]
+	if sp == nil {
+		return nil
+	}
+	var fns []*ssa.Function
+	idx := map[*ssa.Function]int{}
+	for _, name := range sortedKeys(eng.Funcs) {
+		fn := eng.Funcs[name]
+		if rootFn(fn).Pkg == sp {
+			idx[fn] = len(fns)
+			fns = append(fns, fn)
+		}
+	}
+	succ := make([][]int, len(fns))
+	for i, fn := range fns {
+		for _, b := range fn.Blocks {
+			for _, ins := range b.Instrs {
+				var cc *ssa.CallCommon
+				switch c := ins.(type) {
+				case *ssa.Call:
+					cc = c.Common()
+				case *ssa.Defer:
+					cc = c.Common()
+				case *ssa.Go:
+					continue // a new goroutine: not recursion on this stack
+				case *ssa.MakeClosure:
+					if j, ok := idx[c.Fn.(*ssa.Function)]; ok {
+						_ = j // creating a closure is not calling it
+					}
+					continue
+				}
+				if cc == nil {
+					continue
+				}
+				if t := cc.StaticCallee(); t != nil {
+					if j, ok := idx[t]; ok {
+						succ[i] = append(succ[i], j)
+					}
+				}
+			}
+		}
+	}
+	// Tarjan SCC
+	index := 0
+	var stack []int
+	onStack := make([]bool, len(fns))
+	ind := make([]int, len(fns))
+	low := make([]int, len(fns))
+	for i := range ind {
+		ind[i] = -1
+	}
+	var cyc []int
+	var strong func(v int)
+	strong = func(v int) {
+		ind[v], low[v] = index, index
+		index++
+		stack = append(stack, v)
+		onStack[v] = true
+		for _, w := range succ[v] {
+			if ind[w] < 0 {
+				strong(w)
+				if low[w] < low[v] {
+					low[v] = low[w]
+				}
+			} else if onStack[w] && ind[w] < low[v] {
+				low[v] = ind[w]
+			}
+		}
+		if low[v] == ind[v] {
+			var comp []int
+			for {
+				w := stack[len(stack)-1]
+				stack = stack[:len(stack)-1]
+				onStack[w] = false
+				comp = append(comp, w)
+				if w == v {
+					break
+				}
+			}
+			self := false
+			for _, w := range succ[v] {
+				if w == v {
+					self = true
+				}
+			}
+			if len(comp) > 1 || self {
+				cyc = append(cyc, comp...)
+			}
+		}
+	}
+	for v := range fns {
+		if ind[v] < 0 {
+			strong(v)
+		}
+	}
+	var out []*Obligation
+	var missing []string
+	for _, v := range cyc {
+		name := canonFn(fns[v])
+		spec := eng.Contracts[name]
+		allowed := false
+		for _, a := range allow {
+			if a == name {
+				allowed = true
+			}
+		}
+		if allowed {
+			continue
+		}
+		if spec == nil || spec.Assumed || spec.Decr == nil {
+			missing = append(missing, name)
+		}
+	}
+	sort.Strings(missing)
+	o := &Obligation{Name: pkg + "/term:recursion", Kind: "term:recursion", Unit: pkg, Props: []string{prop}, PC: True, Goal: True,
+		Text: "every function of package " + pkg + " on a static call-graph cycle is a unit under contract with a decreases clause"}
+	if len(missing) == 0 {
+		o.Res = SolverResult{Verdict: "unsat", Backend: "syntactic-sweep"}
+	} else {
+		o.Res = SolverResult{Verdict: "sat", Backend: "syntactic-sweep", Output: "recursive without a proved measure: " + strings.Join(missing, ", ")}
+	}
+	out = append(out, o)
+	return out
 }
